@@ -1496,6 +1496,10 @@ Error Assembler::_emit(InstId inst_id, const Operand_& o0, const Operand_& o1, c
               goto InvalidImmediate;
             }
 
+            if (!check_gp_id(o0, o1, kZR)) {
+              goto InvalidPhysId;
+            }
+
             opcode.reset(uint32_t(op_data.shifted_op) << 21);
             opcode.add_imm(x, 31);
             opcode.add_imm(shift_type, 22);
@@ -1522,6 +1526,10 @@ Error Assembler::_emit(InstId inst_id, const Operand_& o0, const Operand_& o1, c
         // Validate whether the register operands match extend option.
         if (o1.as<Reg>().reg_type() != extend_option_to_reg_type(shift_type) || o0.as<Reg>().reg_type() < o1.as<Reg>().reg_type()) {
           goto InvalidInstruction;
+        }
+
+        if (!check_gp_id(o0, kSP) || !check_gp_id(o1, kZR)) {
+          goto InvalidPhysId;
         }
 
         opcode.reset(uint32_t(op_data.extended_op) << 21);
@@ -2081,6 +2089,9 @@ Error Assembler::_emit(InstId inst_id, const Operand_& o0, const Operand_& o1, c
         if (!check_signature(o0, o1, o2))
           goto InvalidInstruction;
 
+        if (!check_gp_id(o0, o1, o2, kZR))
+          goto InvalidPhysId;
+
         opcode.reset(op_data.register_op);
         opcode.add_imm(x, 31);
         opcode.add_reg(o2, 16);
@@ -2096,6 +2107,9 @@ Error Assembler::_emit(InstId inst_id, const Operand_& o0, const Operand_& o1, c
 
         if (!check_signature(o0, o1))
           goto InvalidInstruction;
+
+        if (!check_gp_id(o0, o1, kZR))
+          goto InvalidPhysId;
 
         uint64_t imm = o2.as<Imm>().value_as<uint64_t>();
 
@@ -5016,7 +5030,7 @@ EmitOp_Rd0_Rn5_Rm16_Ra10:
   goto EmitOp;
 
 EmitOp_Rd0_Rn5_Rm16:
-  if (!check_valid_regs(o0, o1, o3))
+  if (!check_valid_regs(o0, o1, o2))
     goto InvalidPhysId;
 
   opcode.add_reg(o0, 0);
@@ -5068,7 +5082,7 @@ EmitOp_MemBaseNoImm_Rn5:
   goto EmitOp;
 
 EmitOp_MemBaseIndex_Rn5_Rm16:
-  if (!rm_rel->as<Mem>().has_base_reg()) {
+  if (!check_mem_base(rm_rel->as<Mem>())) {
     goto InvalidAddress;
   }
 
